@@ -59,6 +59,8 @@ TrWrite == /\ IsOp("write") /\ Kind = "exact"
            /\ LET r == ToRec(Ev[l].v) IN WriteFirst(r) \/ WriteNext(r)
            /\ Clause("write_outcome", outcome' = Ev[l].out)
            /\ CrashObs
+           \* the writer object dropped (garbage collected) without close(): still not a valid file
+           /\ Clause("dropped_writer_rejected", Ev[l].read_ok_dropped = Read(bytes').ok)
 TrClose1 == /\ IsOp("close1") /\ Kind = "exact" /\ Close1
             /\ Clause("close_outcome", outcome' = Ev[l].out)
             /\ CrashObs
